@@ -165,7 +165,7 @@ def pdu_decode_task(ck, task):
         got = D.crc_facts(env.facts, "data", True)
         ck.verdict("P-MUST", f"{fn} [{tag}]", "no CRC is demanded when the flag is clear", [f"CRC facts {got}"] if got else [], "none", nontrivial=False)
     st, m = D.prove(env.facts, binop(">=", length(DEC.DATA), N))
-    ck.verdict("G-REFUSE", fn, f"buffer shorter than the declared PDU is refused ({tag})", [] if st == "proved" else [f"{st}: {m}"], "len(data) >= N on return")
+    ck.verdict3("G-REFUSE", fn, f"buffer shorter than the declared PDU is refused ({tag})", st, m, "len(data) >= N on return")
 
 
 def run(ck):
@@ -210,6 +210,8 @@ def run(ck):
     r = R.run_guarded(ck, "P-MUST", "check_pus_crc", "call", lambda: it.call_func(P.func("ecss.check_pus_crc"), [], {"tc_packet": pk}, env))
     if r is not None:
         ok = r.k == "op" and r.a[0] == "==" and D._crc_extent(r.a[1], "tc_packet") == (Lin({}, 0), None) and r.a[2].k == "const" and r.a[2].a[0] == 0
+        # `not crc(packet)` is the same test
+        ok = ok or (r.k == "un" and r.a[0] == "not" and D._crc_extent(r.a[1].a[1] if (r.a[1].k == "un" and r.a[1].a[0] == "bool") else r.a[1], "tc_packet") == (Lin({}, 0), None))
         ck.verdict("P-MUST", "check_pus_crc", "returns CRC16(whole packet) == 0", [] if ok else [f"returns {show(r)[:100]}"], show(r)[:80])
 
     # ---------------------------------------------------------------- TC / TM encoders incl. stale-cache sequences
